@@ -179,3 +179,64 @@ Proof.
   rewrite !map_length. f_equal.
   f_equal. apply map_ext. intro i. unfold class_ratio, ratio, Qn. destruct (nth i tp O =? 0)%nat; reflexivity.
 Qed.
+
+(* ---------- f1_score ---------- *)
+Theorem code_f1_score y p : py_f1_score (zs y) (zs p) = f1_score y p.
+Proof.
+  unfold py_f1_score, f1_score, f1_counts, over_samples. cbv zeta.
+  rewrite code_n_classes. unfold zlen at 1. rewrite zs_length, !zerosZ_nat. unfold zerosQ. rewrite Nat2Z.id.
+  rewrite for_range_p_0.
+  set (k := n_classes y).
+  assert (Hcnt : (fun (s : list Z * list Z * list Z) (t : list nat * list nat * list nat) =>
+                    s = (zs (fst (fst t)), zs (snd (fst t)), zs (snd t)))
+     (fold_left (fun (s : list Z * list Z * list Z) (j : nat) =>
+         (fun i '(true_positives, false_negatives, down_precision) =>
+           let '(true_positives0, false_negatives0, down_precision0) :=
+             if getZ (zs y) i =? getZ (zs p) i
+             then (setA true_positives (getZ (zs y) i) (getZ true_positives (getZ (zs y) i) + 1), false_negatives, down_precision)
+             else (true_positives, setA false_negatives (getZ (zs y) i) (getZ false_negatives (getZ (zs y) i) + 1),
+                   setA down_precision (getZ (zs p) i) (getZ down_precision (getZ (zs p) i) + 1)) in
+           (true_positives0, false_negatives0, down_precision0)) (Z.of_nat j) s) (seq 0 (length y)) (repeat 0 k, repeat 0 k, repeat 0 k))
+     (fold_left (fun s i => f1_step s (nth i y O) (nth i p O)) (seq 0 (length y)) (zeros k, zeros k, zeros k))).
+  { apply (fold_left_rel (fun (s : list Z * list Z * list Z) (t : list nat * list nat * list nat) =>
+                    s = (zs (fst (fst t)), zs (snd (fst t)), zs (snd t)))).
+    - intros s t j ->. destruct t as [[tp fn] dp]. cbn [fst snd]. unfold f1_step.
+      rewrite eqb_zs, (getZ_zs' y j), (getZ_zs' p j). destruct (nth j y O =? nth j p O)%nat; rewrite ?incr_zs; reflexivity.
+    - unfold zeros, zs. cbn [fst snd]. now rewrite !map_repeat'. }
+  cbv beta in Hcnt. rewrite Hcnt. clear Hcnt.
+  destruct (fold_left (fun s i => f1_step s (nth i y O) (nth i p O)) (seq 0 (length y)) (zeros k, zeros k, zeros k)) as [[tp fn] dp].
+  cbn [fst snd]. rewrite for_range_p_0.
+  transitivity (meanQ (fold_left (fun st j => if negb (nth j tp O =? 0)%nat
+        then upd st j (2 * ((Qn (nth j tp O) / Qn (nth j dp O + nth j tp O)) * (Qn (nth j tp O) / Qn (nth j fn O + nth j tp O)))
+                       / ((Qn (nth j tp O) / Qn (nth j dp O + nth j tp O)) + (Qn (nth j tp O) / Qn (nth j fn O + nth j tp O))))%Q else st)
+                         (seq 0 k) (repeat 0%Q k))).
+  { f_equal. apply fold_left_ext. intros st j. rewrite !getZ_zs', setA_nat. unfold ZtoQ. rewrite !Qn_add_eq.
+    destruct (Nat.eqb_spec (nth j tp O) 0) as [->|Hne]; [reflexivity|].
+    replace (Z.of_nat (nth j tp O) =? 0) with false by (symmetry; apply Z.eqb_neq; lia). reflexivity. }
+  rewrite class_loop. unfold meanQ, qmean, sumQ, qsum, zlen, ZtoQ, Qn.
+  rewrite !map_length. f_equal.
+  f_equal. apply map_ext. intro i. unfold class_f1, ratio, Qn. destruct (nth i tp O =? 0)%nat; reflexivity.
+Qed.
+
+(* ---------- confusion_matrix ---------- *)
+Lemma fold_combine_seq {S} (f : S -> nat * nat -> S) : forall (y p : list nat) s,
+  fold_left f (combine y p) s
+  = fold_left (fun s i => f s (nth i y O, nth i p O)) (seq 0 (Nat.min (length y) (length p))) s.
+Proof.
+  induction y as [|a y IH]; intros [|b p] s; simpl; auto.
+  rewrite IH, <- seq_shift, fold_left_map'. reflexivity.
+Qed.
+
+Theorem code_confusion_matrix y p : py_confusion_matrix (zs y) (zs p) = map zs (confusion_matrix y p).
+Proof.
+  unfold py_confusion_matrix, confusion_matrix. cbv zeta.
+  rewrite code_n_classes. unfold zlen. rewrite !zs_length, <- Nat2Z.inj_min, for_range_p_0, fold_combine_seq.
+  set (k := n_classes y).
+  apply (fold_left_rel (fun (m : list (list Z)) (cm : list (list nat)) => m = map zs cm)).
+  - intros m cm j ->. unfold cm_step, set2, get2. cbn [fst snd].
+    rewrite !getZ_zs'.
+    assert (Hrow : getR (map zs cm) (Z.of_nat (nth j y O)) = zs (nth (nth j y O) cm [])).
+    { rewrite getR_nat. change (@nil Z) with (zs []). apply map_nth. }
+    rewrite Hrow, incr_zs, setA_nat. apply upd_map.
+  - unfold zeros2, zerosZ, zeros. rewrite !Nat2Z.id. unfold zs. now rewrite !map_repeat'.
+Qed.
